@@ -274,6 +274,19 @@ def shape_nested(name):
     raise ValueError(name)
 
 
+def owned_first(shape):
+    """twin of a nested shape in which the owned unit is declared (allocated) before the universe, so that
+    its address is below the universe locks' instead of above"""
+    own = [l for l in shape.setup if l.startswith("let o")]
+    rest = [l for l in shape.setup if not l.startswith("let o")]
+    inner = [l for l in shape.build if l.startswith("let inner = OwnedLockCollection")]
+    build = [l for l in shape.build if not l.startswith("let inner = OwnedLockCollection")]
+    leaves = [(i, k, ("raw6" if r.startswith("&o") else r)) for (i, k, r) in shape.leaves]
+    t = Shape(shape.name + "_of", shape.kind, own + inner + rest, build, shape.ctype, leaves, shape.sharable,
+              guard=shape.guard, rguard=shape.rguard, nested_owned_mask=shape.nested_owned_mask)
+    return t
+
+
 def all_shapes(tier):
     sh = [shape_single("M"), shape_single("R")]
     for coll in ("boxed", "retry", "ref"):
@@ -292,6 +305,8 @@ def all_shapes(tier):
     sh.append(shape_pois("R"))
     for n in ("bx_bx", "bx_rt", "rt_bx", "bx_ow", "rt_ow", "ow_ow"):
         sh.append(shape_nested(n))
+    for n in ("bx_ow", "rt_ow"):
+        sh.append(owned_first(shape_nested(n)))
     if tier != "quick":
         sh.append(shape_array("boxed", 3, "array"))
         sh.append(shape_array("retry", 3, "array"))
